@@ -20,6 +20,7 @@ ops   : ("p", k, side, ks)        k-th action the model predicts to change the s
                                   the j-th saved state (states saved before a reset included) - executed generatively on the
                                   saved state first, then (generatively and as a step) in the current state: an answer must
                                   not leak from one state to the other through anything the environment remembers
+        ("c", k)                  continue on a copy of the environment (deepcopy / pickle round trip)
         ("v", k)                  query: one of the environment's read-only public methods (render_state / render_obs /
                                   render / render_action to a captured stdout, get_action_mask, get_minimum_hops,
                                   get_score_upper_bound, goal_reached, generate_initial_state,
@@ -152,6 +153,10 @@ class Harness:
                 return np.array(v, dtype=np.uint8)
             if k == 4:
                 return tuple(v)
+            if k == 0 and self.n_vec % 2:
+                ro = np.array(v)
+                ro.setflags(write=False)        # a member of the space whatever its flags (np.frombuffer, broadcast_to ...)
+                return ro
             return v
         return self.real_actions[i]
 
@@ -313,7 +318,11 @@ class Harness:
         byc = {}
         for i, a in enumerate(self.acts):
             g = M.gates(self.spec, mst, a)
-            if len(g) == 1:
+            if g == {"pivot", "subnetfw"}:
+                # an exploit on a non-public host that no compromised host may reach with the service: the two
+                # gates are one and the same fact (no pivot <=> no subnet rule lets the service through)
+                byc.setdefault("subnetfw", []).append(i)
+            elif len(g) == 1:
                 byc.setdefault(next(iter(g)), []).append(i)
             elif not g and a.kind == "exploit":
                 inet, sub_ok, full_ok = M.positions(self.spec, mst, a)
@@ -390,6 +399,12 @@ class Harness:
             self.cross = (S, mstS) if cands else None
             if not cands:
                 return self.choose(("p", op[2]), mst)
+            # two times out of three one that is stopped by network-level gates only (its target is visible in both
+            # states: the refusal comes from the pivot / firewall logic, not from the discovery test in front of it)
+            net = {"pivot", "subnetfw", "hostfw"}
+            sharp = [a for a in cands if (M.gates(self.spec, mst, a) or M.gates(self.spec, mstS, a)) <= net]
+            if sharp and op[2] % 3:
+                return sharp[(op[2] // 3) % len(sharp)]
             return cands[op[2] % len(cands)]
         if kind == "q":
             # hand-built variant of a progress / near-miss / flat action: required access ROOT (or USER),
@@ -440,11 +455,29 @@ def build_harness(source, modes=None, foreign=None):
     """foreign: name of a shipped scenario of which an environment is created
     AFTER this one and kept alive (every property must hold whether or not other
     environments exist in the process)"""
+    sib = None
+    if foreign == "sibling":
+        # an environment of the SAME document with its OS / service / process lists declared in the opposite order
+        # (same names, same address bounds), created first and kept alive
+        foreign = None
+        if source["kind"] == "doc" and max(len(source["doc"][k_]) for k_ in ("os", "services", "processes")) > 1:
+            import copy
+            d2 = copy.deepcopy(source["doc"])
+            for k_ in ("os", "services", "processes"):
+                d2[k_] = list(reversed(d2[k_]))
+            try:
+                sib = sources.make_env(sources.scenario_from_doc(d2))
+            except Exception:
+                sib = None
     h = _build_harness(source, modes)
+    h.sibling = sib
     if foreign:
         import nasim
         h.foreign = sources.make_env(nasim.load_scenario(sources.shipped_path(foreign)))
     return h
+
+
+_GEN = [None]
 
 
 def _build_harness(source, modes=None):
@@ -463,7 +496,20 @@ def _build_harness(source, modes=None):
             # terminate is C15's violation; every other check must not hang on it)
             import nasim
             try:
-                scn_ = guarded_generate(lambda: nasim.generate_scenario(**source["params"]))
+                if source.get("reuse"):
+                    # the documented class API: one long-lived ScenarioGenerator object; after this scenario it
+                    # generates another one (smaller values, one host more) - the first must not change
+                    from nasim.scenarios.generator import ScenarioGenerator
+                    if _GEN[0] is None:
+                        _GEN[0] = ScenarioGenerator()
+                    scn_ = guarded_generate(lambda: _GEN[0].generate(**source["params"]))
+                    spec_ = M.Spec.from_scenario(scn_)        # what the generator returned, read before it goes on
+                    other = dict(source["params"], r_sensitive=1, r_user=1, num_hosts=source["params"]["num_hosts"] + 1)
+                    other.pop("address_space_bounds", None)
+                    guarded_generate(lambda: _GEN[0].generate(**other))
+                    return spec_, scn_
+                else:
+                    scn_ = guarded_generate(lambda: nasim.generate_scenario(**source["params"]))
             except BudgetExceeded:
                 raise SourceRejected("C15", "generate_scenario did not return within the line budget")
             return M.Spec.from_scenario(scn_), scn_
@@ -471,6 +517,15 @@ def _build_harness(source, modes=None):
     else:
         raise ValueError(kind)
     return Harness(spec, scn, modes, tag=kind)
+
+
+def stale_candidates(h, pre_mst):
+    """remote actions that passed every gate in the abandoned state pre_mst and are blocked in the current
+    (initial) one - those whose target is visible first"""
+    stale = [a for a in h.acts if a.kind in ("exploit", "service_scan", "os_scan")
+             and not M.gates(h.spec, pre_mst, a) and M.gates(h.spec, h.mst, a)]
+    visible = [a for a in stale if "discovery" not in M.gates(h.spec, h.mst, a)]
+    return visible or stale
 
 
 QUERIES = ["render_state", "render_obs", "render", "render_action", "get_action_mask", "get_minimum_hops",
@@ -585,6 +640,21 @@ def run_history(h, ops, on_rec, on_reset=None, both_sides=True, do_gen=True):
                     h.stale_probes = getattr(h, "stale_probes", 0) + 1
                     if h.diverged:
                         return "diverged"
+            continue
+        if k == "c":
+            # carry on with a COPY of the environment (copy.deepcopy / pickle round trip) in the middle of the
+            # episode: a copy is an environment in the state of its original.  Whether an environment can be copied is
+            # nobody's property here: if it cannot, the history simply goes on with the original.
+            import copy
+            import pickle
+            try:
+                twin = copy.deepcopy(h.env) if op[1] % 2 == 0 else pickle.loads(pickle.dumps(h.env))
+            except Exception:
+                h.copy_failed = getattr(h, "copy_failed", 0) + 1
+                continue
+            h.env = twin
+            h.real_actions = list(twin.action_space.actions)
+            h.copies = getattr(h, "copies", 0) + 1
             continue
         if k == "v":
             name, what = do_query(h, op[1])
